@@ -17,55 +17,56 @@
                LABEL an exit jumps to.  tr g o = the jump that stands for outcome o under the
                labels of g; wf g = the current labels were allocated before.
 
-   FULL STATEMENT (not proved, hence the _partial names): the two theorems below without the
-   hypothesis  no_with s = true,  i.e. also for programs containing with-blocks
-   (SWith / WithTransform are in the model and exercised by the correspondence run only). *)
+   All statements of the language are covered: raise / raise from / bare raise, try/except
+   (typed, bare, as-name with the implicit deletion), else, finally, with-blocks (WithTransform:
+   pass-through, swallowing and raising __exit__), loops with return/break/continue, probes; any
+   nesting.  (except* is not in the language: differential testing only.) *)
 From Coq Require Import List Bool.
 From CyVerif Require Import Model.M_Exc Model.M_ExcLab Proof.P_Exc Proof.P_ExcLab.
 Import ListNotations.
 
-(* all programs of the try/except/else/finally/loop/raise core, all calling contexts
+(* all programs, all calling contexts
    (h = pre-existing exceptions, t = top exc_info item, b = topmost item underneath),
    with the repaired ReraiseStatNode *)
-Theorem C22_repaired_scheme_matches_cpython_partial : forall sx s h t b,
-  no_with s = true -> same_obs (run_ref s h t b) (run_sch true sx s h t b).
+Theorem C22_repaired_scheme_matches_cpython : forall sx s h t b,
+  same_obs (run_ref s h t b) (run_sch true sx s h t b).
 Proof. exact repaired_matches_reference. Qed.
-Print Assumptions C22_repaired_scheme_matches_cpython_partial.
+Print Assumptions C22_repaired_scheme_matches_cpython.
 
-(* the code as it is: the same, unless the zeroed handler temps are reached *)
-Theorem C22_current_scheme_matches_cpython_partial : forall sx s h t b,
-  no_with s = true -> fst (run_sch false sx s h t b) <> OCrash ->
+(* ReraiseStatNode before its repair (fx = false): the same, unless the zeroed handler temps are reached *)
+Theorem C22_unrepaired_reraise_matches_cpython_unless_crash : forall sx s h t b,
+  fst (run_sch false sx s h t b) <> OCrash ->
   same_obs (run_ref s h t b) (run_sch false sx s h t b).
 Proof. exact current_matches_reference_unless_crash. Qed.
-Print Assumptions C22_current_scheme_matches_cpython_partial.
+Print Assumptions C22_unrepaired_reraise_matches_cpython_unless_crash.
 
 (* finding: a bare raise after a caught bare raise in the same handler restores zeroed temps *)
 Theorem C22_current_scheme_refuted :
-  exists s h t b, no_with s = true /\ fst (run_sch false false s h t b) = OCrash /\
+  exists s h t b, fst (run_sch false false s h t b) = OCrash /\
                   fst (run_ref s h t b) = ORaise 0.
 Proof. exact current_reraise_refuted. Qed.
 Print Assumptions C22_current_scheme_refuted.
 
 (* general form: any related pair of states (inside handlers, zeroed or live temps ...) *)
-Theorem C22_refinement_invariant_partial : forall fx sx s r c,
-  no_with s = true -> Rel fx sx r c ->
+Theorem C22_refinement_invariant : forall fx sx s r c,
+  Rel fx sx r c ->
   (fx = false /\ fst (exec_sch fx sx (desugar s) c) = OCrash) \/
   same_obs (exec_ref s r) (exec_sch fx sx (desugar s) c).
 Proof. exact scheme_refines_reference_core. Qed.
-Print Assumptions C22_refinement_invariant_partial.
+Print Assumptions C22_refinement_invariant.
 
 (* the top exc_info item is put back exactly when nothing is handled underneath (or with the
    repaired ExceptionSave) ... *)
-Theorem C22_top_item_restored_partial : forall fx sx s h t b,
-  no_with s = true -> (b = None \/ sx = true) ->
+Theorem C22_top_item_restored : forall fx sx s h t b,
+  (b = None \/ sx = true) ->
   fst (run_sch fx sx s h t b) <> OCrash ->
   top (snd (run_sch fx sx s h t b)) = t /\ top (snd (run_ref s h t b)) = t.
 Proof. exact top_item_restored. Qed.
-Print Assumptions C22_top_item_restored_partial.
+Print Assumptions C22_top_item_restored.
 
 (* ... finding: called from a generator frame, the outer exception is left in the frame's item *)
 Theorem C22_top_item_refuted :
-  exists s h t b fx, no_with s = true /\ fst (run_sch fx false s h t b) <> OCrash /\
+  exists s h t b fx, fst (run_sch fx false s h t b) <> OCrash /\
     top (snd (run_sch fx false s h t b)) <> top (snd (run_ref s h t b)).
 Proof. exact top_item_refuted. Qed.
 Print Assumptions C22_top_item_refuted.
@@ -114,11 +115,11 @@ Theorem C22_label_code_equals_scheme : forall fx sx s h t b,
 Proof. exact run_lab_eq_run_sch. Qed.
 Print Assumptions C22_label_code_equals_scheme.
 
-(* ... hence the continuation selected at the label level is CPython's (same fragment as above) *)
-Theorem C22_label_code_matches_cpython_partial : forall sx s h t b,
-  no_with s = true -> same_obs (run_ref s h t b) (run_lab false true sx s h t b).
+(* ... hence the continuation selected at the label level is CPython's *)
+Theorem C22_label_code_matches_cpython : forall sx s h t b,
+  same_obs (run_ref s h t b) (run_lab false true sx s h t b).
 Proof. exact lab_matches_reference. Qed.
-Print Assumptions C22_label_code_matches_cpython_partial.
+Print Assumptions C22_label_code_matches_cpython.
 
 (* exits taken in an else clause never reach the except clauses of the same statement *)
 Theorem C22_else_exits_bypass_own_handlers : forall fx sx body hs orelse g c c1 o c2,
@@ -133,22 +134,22 @@ Print Assumptions C22_else_exits_bypass_own_handlers.
 (* the model depends on WHERE the error label is switched: generated with the switch after the
    else clause, an else clause raising a class its own handler matches is swallowed *)
 Theorem C22_late_error_label_switch_refuted :
-  exists s h t b, no_with s = true /\
+  exists s h t b,
     fst (run_lab true true true s h t b) = ONorm /\ fst (run_ref s h t b) = ORaise 0 /\
     fst (run_lab false true true s h t b) = ORaise 0.
 Proof. exact late_switch_refuted. Qed.
 Print Assumptions C22_late_error_label_switch_refuted.
 
-(* the hypotheses are satisfiable on a non-trivial program: nested handlers, as-name, finally,
-   chaining; both runs raise the same exception with the same context *)
+(* non-trivial instance: nested handlers, as-name, finally, a with-block whose __exit__ lets the
+   exception through, chaining; both runs raise the same exception with the same context *)
 Example C22_nonvacuous :
   let s := SFinally
-             (STry (SRaise (RNew 3) NoCause)
+             (STry (SWith 7 XPass (SRaise (RNew 3) NoCause))
                    (HCons (Some 3) (Some 1)
                       (SSeq SProbe (SRaise (RNew 4) (FromVar 1))) HNil) SSkip)
              SProbe in
-  no_with s = true /\
   fst (run_sch false false s [] None None) = ORaise 1 /\
+  fst (run_lab false true true s [] None None) = ORaise 1 /\
   fst (run_ref s [] None None) = ORaise 1 /\
   e_ctx (get (heap (co (snd (run_ref s [] None None)))) 1) = Some 0.
 Proof. vm_compute. auto. Qed.
